@@ -190,6 +190,17 @@ struct R<Tracked>
 // ------------------------------------------------------------------ schedule bursts
 static bool g_serialBackend = false;
 
+// some cases re-configure the tasking system (another thread count) right after handing their work over, while it is
+// still queued: whatever was handed over before must run all the same
+static int g_reinitAfterSubmit = 0;
+static void reconfigureIfAsked()
+{
+  if (g_reinitAfterSubmit > 0) {
+    initTaskingSystem(g_reinitAfterSubmit);
+    vh::count("reconfigured_while_work_queued");
+  }
+}
+
 static bool scheduleBurst(int B, bool nested, int bodyDelay, const std::string &ctx, bool report)
 {
   std::unique_ptr<std::atomic<int>[]> exec(new std::atomic<int>[2 * B + 2]);
@@ -226,6 +237,7 @@ static bool scheduleBurst(int B, bool nested, int bodyDelay, const std::string &
       });
     }
   }
+  reconfigureIfAsked();
   // the caller only sleeps from here on: no wait call, no further scheduling
   bool all = waitUntil(
       [&]() {
@@ -291,6 +303,7 @@ static void asyncBatch(int n, int bodyDelay, const std::string &ctx)
       return R<T>::make(cap.id);
     }));
   }
+  reconfigureIfAsked();
   for (int id = 0; id < n; ++id) {
     if (futs[id].wait_for(std::chrono::seconds(30)) != std::future_status::ready) {
       vh::violation("C02:async:future-not-ready-within-watchdog", std::string("future of async<") + R<T>::name() + "> not ready after 30 s", ctx + " id=" + std::to_string(id));
@@ -479,6 +492,7 @@ struct Case
   int slowCtor, slowAssign;
   int inject;
   bool nested;
+  int reinit;  // > 0: re-configure the tasking system to that many threads while the work is queued
 };
 static const char *kTypes[] = {"int", "double", "string", "vector<int>", "Tracked", "void+unique_ptr"};
 
@@ -493,6 +507,8 @@ static std::string describe(const Case &c, long k, int T)
     s += std::string("AsyncTask<") + kTypes[c.type] + "> x" + std::to_string(c.size) + " timeline=" + std::to_string(c.timeline) + " slowCtorUs=" + std::to_string(c.slowCtor) +
          " slowAssignUs=" + std::to_string(c.slowAssign);
   s += " bodyDelayUs=" + std::to_string(c.bodyDelay) + " inject=" + std::to_string(c.inject);
+  if (c.reinit)
+    s += " then initTaskingSystem(" + std::to_string(c.reinit) + ") while queued";
   return s;
 }
 
@@ -514,6 +530,7 @@ static void runCase(const Case &c, long k, int T)
   g_slowCtorUs.store(c.slowCtor);
   g_slowAssignUs.store(c.slowAssign);
   vh::Rng r(vh::seed(), 2000 + (uint64_t)k);
+  g_reinitAfterSubmit = c.reinit;
   if (c.kind == 0) {
     if (!scheduleBurst(c.size, c.nested, c.bodyDelay, ctx, false)) {
       // bounded "eventually": a watchdog expiry is re-run once before it counts
@@ -544,7 +561,11 @@ static void runCase(const Case &c, long k, int T)
   g_injectPermille.store(0);
   g_slowCtorUs.store(0);
   g_slowAssignUs.store(0);
-  uint64_t h = vh::hash64((uint64_t)c.kind * 100 + (uint64_t)c.type * 10 + (uint64_t)(c.timeline + 1), (uint64_t)c.size);
+  if (c.reinit) {
+    g_reinitAfterSubmit = 0;
+    initTaskingSystem(T);  // back to the configuration of this group of cases
+  }
+  uint64_t h = vh::hash64((uint64_t)c.kind * 100 + (uint64_t)c.reinit * 7919 + (uint64_t)c.type * 10 + (uint64_t)(c.timeline + 1), (uint64_t)c.size);
   h          = vh::hash64(h, (uint64_t)c.bodyDelay * 31 + (uint64_t)c.slowCtor * 7 + (uint64_t)c.slowAssign + (c.nested ? 1000003 : 0) + (uint64_t)T * 131071);
   vh::evaluated(h, c.size > 0);
   vh::count((std::string("result_type_") + kTypes[c.type]).c_str());
@@ -555,6 +576,21 @@ static std::vector<Case> buildCases(int T, bool asan, bool omp, bool internalBac
   std::vector<Case> v;
   vh::Rng r(vh::seed(), 200 + (uint64_t)T);
   Case c;
+  c.reinit = 0;
+  // work handed over, then the tasking system re-configured while it is queued (schedule bursts and async batches)
+  for (int rep = 0; rep < (int)vh::tier(3, 12); ++rep) {
+    c.kind      = rep % 3 == 2 ? 1 : 0;
+    c.size      = c.kind == 1 ? 64 : (int)r.pick(std::vector<int>{200, 600});
+    c.type      = c.kind == 1 ? (int)r.pick(std::vector<int>{2, 4}) : 0;
+    c.timeline  = -1;
+    c.nested    = false;
+    c.bodyDelay = 400;  // slow enough that most of the work is still queued at the re-configuration
+    c.slowCtor = c.slowAssign = 0;
+    c.inject    = 0;
+    c.reinit    = (int)r.pick(std::vector<int>{2, 3, 8});
+    v.push_back(c);
+  }
+  c.reinit = 0;
   // schedule bursts
   int bursts[] = {1, 2, 10, 255, 256, 257, 600, 1000, (int)vh::tier(3000, 10000), (int)vh::tier(0, 100000)};
   for (size_t i = 0; i < sizeof(bursts) / sizeof(bursts[0]); ++i) {
@@ -628,7 +664,7 @@ int main(int argc, char **argv)
   vh::rule(
       "case = (api: schedule burst | async batch | AsyncTask scenarios, size, result type, timeline {poll finished then get, get at once, "
       "wait then get, destroy without get}, body delay, slow default construction / assignment of the result type, hook-delay rate, "
-      "configured threads); distinct = hash of that tuple; non-trivial = size > 0");
+      "configured threads, optional re-configuration of the tasking system while the submitted work is still queued); distinct = hash of that tuple; non-trivial = size > 0");
   g_capReg = new vh::Lifetime("C02:capture");
   g_trkReg = new vh::Lifetime("C02:result-object");
   int Ts[] = {4, 2, 12};
